@@ -87,14 +87,22 @@ func VerifC05_Chain() {
 			verifFail("dependent.launched")
 		}
 	}
+	VerifStateHook = func(proc, state string) { verifEvent("state " + proc + " -> " + state) }
 	r := vRunner(vProject(confs...), false)
 	runDone := make(chan error, 1)
 	go func() { runDone <- r.Run() }()
 	if mode == 3 {
 		go func() {
-			for n := range w.started { // the user stops a once its command runs
-				if n == "a" {
-					break
+			if withVictim {
+				// with bystanders the user stops a once the start-up is over: a project
+				// shutdown that begins while Run() still registers processes is the known
+				// finding of C03 and would hide what this harness judges
+				verifQuiesce()
+			} else {
+				for n := range w.started { // the user stops a once its command runs
+					if n == "a" {
+						break
+					}
 				}
 			}
 			_ = r.StopProcess("a")
